@@ -1,5 +1,5 @@
 import BiotiteModel.Proofs.C04
-import BiotiteModel.Proofs.C04Compose
+import BiotiteModel.Proofs.C04Mask
 import BiotiteModel.Proofs.C04Altloc
 import BiotiteModel.Gen.C04
 /-!
@@ -228,21 +228,78 @@ theorem C04_backbone_links_restored (ccd : Ccd) (atoms : List Atom) (b : Bond) :
           some ((atomAt atoms b.i).atomName, (atomAt atoms b.j).atomName))) :=
   ⟨generated_link_class ccd atoms b, fun hu hi hj hd => dropped_link_restored ccd atoms hu b hi hj hd⟩
 
-/-- **Bond round-trip, composed through `set_structure` and `get_structure` (partial).**  For every
+/-- **Whole-structure round-trip through `set_structure` and `get_structure` (partial).**  For every
 well-formed structure (`WFS`: uniquely identifiable atoms, consistent components, expressible
-types — `IntraOk` within residues, `InterOk` in `struct_conn` —, backbone links exactly those the
-dictionary implies, as SINGLE bonds): `set_structure(include_bonds=True)` succeeds and
-`get_structure(model=1, include_bonds=True)` on the written block returns the same atoms (all
-annotations), the coordinates of the model, the box token and a bond list with **exactly the same
-typed bonds**.  *Partial* with respect to the property: inter-residue ANY / AROMATIC* are excluded
-(`C04_inter_type_defect`), and a dictionary-implied link of another type than SINGLE (kept in
-`struct_conn`, precedence of `merge`) is covered by correspondence + oracle only. -/
+types — `IntraOk` within residues, `InterOk` in `struct_conn` —, every backbone link the dictionary
+implies is bonded, with any `struct_conn` type): `set_structure(include_bonds=True)` succeeds and on
+the written block
+* `get_structure(model=None)` returns the **stack**: the same atoms (all annotations), the coordinates
+  of **every** model, the box token and a bond list with exactly the same typed bonds;
+* `model=k+1` and `model=k−M` (negative index) return model `k` with the same atoms and bonds;
+* `model=0`, `model>M`, `model<−M` raise `ValueError` (repaired: negative out-of-range indices).
+*Partial* with respect to the property: inter-residue ANY / AROMATIC* are excluded
+(`C04_inter_type_defect`). -/
+theorem C04_stack_roundtrip (ccd : Ccd) (s : Structure) (bs : List Bond) (w : WFS ccd s bs) :
+    ∃ blk bs', writeBlock s true = .ok blk ∧ (∀ b, b ∈ bs' ↔ b ∈ bs) ∧
+      readStructure ccd blk ⟨none, .first, true, s.hasCharge, s.hasAtomId⟩ =
+        .ok ⟨s.atoms, s.hasCharge, s.hasAtomId, s.coords, s.box, some bs'⟩ ∧
+      (∀ (k : Nat) (hk : k < s.coords.length) (m : Int),
+        (m = (k : Int) + 1 ∨ m = (k : Int) - (s.coords.length : Int)) →
+        readStructure ccd blk ⟨some m, .first, true, s.hasCharge, s.hasAtomId⟩ =
+          .ok ⟨s.atoms, s.hasCharge, s.hasAtomId, [s.coords[k]], s.box, some bs'⟩) ∧
+      (∀ m : Int, (m = 0 ∨ m > (s.coords.length : Int) ∨ m < -(s.coords.length : Int)) →
+        readStructure ccd blk ⟨some m, .first, true, s.hasCharge, s.hasAtomId⟩ = .error .valueError) :=
+  stack_roundtrip ccd s bs w
+
+/-- **Bond round-trip, composed (the `model=1` instance of `C04_stack_roundtrip`).** -/
 theorem C04_bonds_roundtrip_partial (ccd : Ccd) (s : Structure) (bs : List Bond) (w : WFS ccd s bs) :
-    ∃ blk bs', writeBlock s true = .ok blk ∧
+    ∃ blk bs' c0, s.coords.head? = some c0 ∧ writeBlock s true = .ok blk ∧
       readStructure ccd blk ⟨some 1, .first, true, s.hasCharge, s.hasAtomId⟩ =
-        .ok ⟨s.atoms, s.hasCharge, s.hasAtomId, [s.coords.headD []], s.box, some bs'⟩ ∧
-      ∀ b, b ∈ bs' ↔ b ∈ bs :=
-  bonds_roundtrip ccd s bs w
+        .ok ⟨s.atoms, s.hasCharge, s.hasAtomId, [c0], s.box, some bs'⟩ ∧
+      ∀ b, b ∈ bs' ↔ b ∈ bs := by
+  obtain ⟨blk, bs', hw, hmem, _, hk, _⟩ := stack_roundtrip ccd s bs w
+  have hpos : 0 < s.coords.length := by
+    cases h : s.coords with
+    | nil => exact absurd h w.coords_ne
+    | cons _ _ => simp
+  refine ⟨blk, bs', s.coords[0], by simp [List.head?_eq_getElem?, List.getElem?_eq_getElem hpos], hw, ?_, hmem⟩
+  exact hk 0 hpos 1 (Or.inl (by simp))
+
+/-- **Unequal model lengths are rejected** by `get_structure(model=None)` whenever some model (group
+of `_filter_model`) has another length than the first — also when the total happens to fit
+(models of 2, 1 and 3 atoms; accepted as 3 × 2 by the unrepaired check `length × count ≠ total`). -/
+theorem C04_unequal_models_rejected (ccd : Ccd) (b : Block) (o : ReadOpts) (hom : o.model = none)
+    (h : ∃ g ∈ splitModels b.site, g.length ≠ ((splitModels b.site).headD []).length) :
+    readStructure ccd b o = .error .invalidFile :=
+  readStructure_unequal ccd b o hom h
+
+/-- `model_count` (`len(np.unique(models))`) is the number of groups `_filter_model` cuts, for every table. -/
+theorem C04_model_count_eq_groups (site : List SiteRow) :
+    distinctCount (site.map (·.model)) = (splitModels site).length :=
+  distinct_eq_groups site
+
+/-- **A dictionary-implied backbone link of another type than SINGLE** is not omitted by the writer
+(it is a `struct_conn` row with its order), while the reader still creates the implicit SINGLE link;
+`merge` lets the `struct_conn` list take precedence: in `BondList(A ++ B)` a bond of `B` whose atom
+pair already occurs in `A` is dropped, everything else is kept (this is the order seeded change
+C04-4 flipped).  `C04_stack_roundtrip` uses both facts: the written type comes back. -/
+theorem C04_nonsingle_link_and_merge_precedence :
+    (∀ (ccd : Ccd) (atoms : List Atom) (b : Bond) (t : Nat), b ∈ connectInter ccd (residues atoms) → t ≠ btSingle →
+      isConnRow atoms ⟨b.i, b.j, t⟩ = true) ∧
+    (∀ (bonds A B : List Bond), UniquePairs bonds → (∀ b ∈ bonds, b.i < b.j) → (∀ x ∈ A, x ∈ bonds) →
+      (∀ x ∈ B, x ∈ bonds ∨ ∃ a ∈ A, pairOf a = pairOf x) →
+      ∀ y, y ∈ mergeBonds B A ↔ y ∈ A ∨ (y ∈ B ∧ y ∈ bonds)) := by
+  constructor
+  · intro ccd atoms b t hb ht
+    obtain ⟨_, _, hbt, hin, _⟩ := generated_link_class ccd atoms b hb
+    have hz : inStructConn (resPos atoms) ⟨b.i, b.j, t⟩ = true := inStructConn_pair _ b _ rfl rfl hin hbt
+    have hnc : isCanonicalLink atoms (resPos atoms) ⟨b.i, b.j, t⟩ = false := by
+      unfold isCanonicalLink
+      have : (t == btSingle) = false := by simpa using ht
+      simp [this]
+    simp [isConnRow, hz, hnc]
+  · intro bonds A B hu hlt hA hB y
+    exact mem_normBonds_shadow bonds A B hu hlt hA hB y
 
 /-- **text ≙ binary ≙ compressed, at table level.**  `set_structure` is one function for the three
 writers: they all serialise the block `writeBlock s`.  *Assumed* about the layers below this model:
@@ -331,6 +388,45 @@ theorem C04_altloc_written_all_kept (n : Nat) :
   rw [C04_altloc_first_exact]
   simp [hasAltloc, noAltloc]
 
+/-- **Altloc filtering and bonds are consistent** (`array[..., mask]` after `_filter_altloc`, any
+policy, any mask of the right length): (1) the bond list after filtering consists exactly of the bonds
+whose two atoms are both kept, with the same type and both indices replaced by the rank among the
+kept atoms; (2) a kept atom is found at that new index in the filtered atom list, so every remapped
+bond joins the same two atoms as before; (3) the renumbering is strictly increasing on kept atoms —
+different kept atoms never collapse, bonds are not merged. -/
+theorem C04_altloc_bonds_consistent (mask : List Bool) (atoms : List Atom) (bs : List Bond)
+    (hl : mask.length = atoms.length) :
+    (∀ y, y ∈ filterBondsByMask mask bs ↔
+      ∃ b ∈ bs, mask.getD b.i false = true ∧ mask.getD b.j false = true ∧
+        y = ⟨newIndex mask b.i, newIndex mask b.j, b.t⟩) ∧
+    (∀ i, mask.getD i false = true → (applyMask mask atoms)[newIndex mask i]? = atoms[i]?) ∧
+    (∀ i j, i < j → mask.getD i false = true → newIndex mask i < newIndex mask j) :=
+  ⟨mem_filterBondsByMask mask bs,
+   fun i hi => applyMask_newIndex mask atoms i hl ((getD_true_iff mask i).mp hi),
+   fun i j hij hi => newIndex_lt mask i j hij ((getD_true_iff mask i).mp hi)⟩
+
+/-! ## Box -/
+
+/-- **The box.**  `set_structure` writes one `cell` category, computed from the box of the **first**
+model (`writeCell`; at token level the six `unitcell_from_vectors` fields are one token), and
+`get_structure(model=None)` repeats the box of the file for every model.  Hence the boxes of a stack
+round-trip **iff** all models have the first model's box; an `AtomArray` (one model) always does.
+Per-model differing boxes are *not* preserved (known finding `C04/box/per-model-boxes-collapsed`:
+a PDBx data block has exactly one `cell` category). -/
+theorem C04_box_first_model_only (b : Tok) (rest : List Tok) :
+    writeCell (some (b :: rest)) = some b ∧ writeCell none = none ∧
+    (readBoxes (writeCell (some (b :: rest))) (rest.length + 1) = some (b :: rest) ↔ ∀ x ∈ rest, x = b) ∧
+    readBoxes (writeCell (some ["p", "q"])) 2 = some ["p", "p"] := by
+  refine ⟨rfl, rfl, ?_, by decide⟩
+  simp only [writeCell, List.head?_cons, readBoxes, Option.map_some, Option.some.injEq, List.replicate_succ,
+    List.cons.injEq, true_and]
+  constructor
+  · intro h x hx
+    rw [← h] at hx
+    exact (List.mem_replicate.mp hx).2
+  · intro h
+    exact (List.eq_replicate_iff.mpr ⟨rfl, h⟩).symm
+
 /-! ## Non-vacuity -/
 
 def exAtom (rid : Int) (ins name : String) (c : Int) : Atom := ⟨"A", rid, ins, "ALA", false, name, "C", c, 0, ["b"]⟩
@@ -393,14 +489,63 @@ theorem exW_wf : WFS exCcd exW exBonds where
   interTypes := by decide +kernel
   consistent := by decide +kernel
   noFallback := by decide +kernel
-  linksPresent := by decide +kernel
+  linksPaired := by
+    intro b hb
+    have h : connectInter exCcd (residues exAtoms) = [⟨2, 3, 1⟩] := by decide +kernel
+    have hb' : b ∈ connectInter exCcd (residues exAtoms) := hb
+    rw [h] at hb'
+    have : b = ⟨2, 3, 1⟩ := by simpa using hb'
+    subst this
+    exact ⟨1, by decide⟩
   droppedClassified := by decide +kernel
 
-example : ∃ blk bs', writeBlock exW true = .ok blk ∧
+/-- the same structure with two models and a **DOUBLE** C→N link: `struct_conn` keeps it and wins the merge -/
+def exBonds2 : List Bond := [⟨0, 1, 1⟩, ⟨1, 2, 2⟩, ⟨3, 4, 1⟩, ⟨2, 3, 2⟩, ⟨5, 6, 9⟩, ⟨2, 5, 3⟩, ⟨1, 6, 8⟩]
+def exW2 : Structure := ⟨exAtoms, false, false, [["a", "b", "c", "d", "e", "f", "g"], ["A", "B", "C", "D", "E", "F", "G"]],
+  some "box", some exBonds2⟩
+
+theorem exW2_wf : WFS exCcd exW2 exBonds2 where
+  bonds := rfl
+  atoms_ne := by decide
+  coords_ne := by decide
+  coords_len := by decide
+  normal := by decide +kernel
+  lt := by decide
+  unique := by decide
+  names := by decide +kernel
+  keys := by decide +kernel
+  namesUnique := by decide +kernel
+  intraTypes := by decide +kernel
+  interTypes := by decide +kernel
+  consistent := by decide +kernel
+  noFallback := by decide +kernel
+  linksPaired := by
+    intro b hb
+    have h : connectInter exCcd (residues exAtoms) = [⟨2, 3, 1⟩] := by decide +kernel
+    have hb' : b ∈ connectInter exCcd (residues exAtoms) := hb
+    rw [h] at hb'
+    have : b = ⟨2, 3, 1⟩ := by simpa using hb'
+    subst this
+    exact ⟨2, by decide⟩
+  droppedClassified := by decide +kernel
+
+example : exBonds2.filter (isDroppedLink exAtoms) = [] ∧
+    exBonds2.filter (isConnRow exAtoms) = [⟨2, 3, 2⟩, ⟨2, 5, 3⟩, ⟨1, 6, 8⟩] := by decide +kernel
+
+example : ∃ blk bs', writeBlock exW2 true = .ok blk ∧ (∀ b, b ∈ bs' ↔ b ∈ exBonds2) ∧
+    readStructure exCcd blk ⟨none, .first, true, false, false⟩ =
+      .ok ⟨exAtoms, false, false, exW2.coords, some "box", some bs'⟩ := by
+  obtain ⟨blk, bs', h1, h2, h3, _⟩ := C04_stack_roundtrip exCcd exW2 exBonds2 exW2_wf
+  exact ⟨blk, bs', h1, h2, h3⟩
+
+example : ∃ blk bs' c0, exW.coords.head? = some c0 ∧ writeBlock exW true = .ok blk ∧
     readStructure exCcd blk ⟨some 1, .first, true, false, false⟩ =
-      .ok ⟨exAtoms, false, false, [["a", "b", "c", "d", "e", "f", "g"]], some "box", some bs'⟩ ∧
-    ∀ b, b ∈ bs' ↔ b ∈ exBonds :=
+      .ok ⟨exAtoms, false, false, [c0], some "box", some bs'⟩ ∧ ∀ b, b ∈ bs' ↔ b ∈ exBonds :=
   C04_bonds_roundtrip_partial exCcd exW exBonds exW_wf
+
+/-- models of 2, 1 and 3 rows: the total fits 3 × 2, the table is rejected all the same -/
+example : let r := fun (m : Int) => ({ (writeRow false (exAtom 1 "" "N" 0) 1) with model := m } : SiteRow)
+    (splitModels [r 1, r 1, r 2, r 3, r 3, r 3]).map List.length = [2, 1, 3] := by decide +kernel
 
 /-- ids "A" (4+1 = 5 eighths) and "B" (3+2 = 5 eighths) tie: the fold keeps the first, "A". -/
 example : ["A", "B"].foldl (argStep (occSum [".", "B", "A", "B", "A"] [8, 3, 4, 2, 1])) none = some "A" ∧
@@ -408,5 +553,8 @@ example : ["A", "B"].foldl (argStep (occSum [".", "B", "A", "B", "A"] [8, 3, 4, 
   decide +kernel
 example : "A" ∈ altIds [".", "B", "A", "B", "A"] ∧ "." ∉ altIds [".", "B", "A", "B", "A"] :=
   ⟨(mem_altIds _ _).mpr ⟨by decide, by decide⟩, fun h => absurd ((mem_altIds _ _).mp h).2 (by decide)⟩
+
+example : filterBondsByMask [true, false, true, true] [⟨0, 1, 1⟩, ⟨0, 2, 2⟩, ⟨2, 3, 8⟩] = [⟨0, 1, 2⟩, ⟨1, 2, 8⟩] ∧
+    applyMask [true, false, true, true] ["a", "b", "c", "d"] = ["a", "c", "d"] := by decide
 
 end BiotiteModel.C04
